@@ -42,9 +42,10 @@ class VariantAtom(Atom):
         return None
 
 
-def explore(body, atoms, start=0, start_assign=None, max_states=200000):
+def explore(body, atoms, start=0, start_assign=None, max_states=200000, mark_edges=None, mark_blocks=None, stop_blocks=None):
     """Returns (terminals, seen_atoms): terminals = list of (return_bb, passed_err_block, assignment dict, path);
-    seen_atoms = {atom name: set(switch blocks where it was recognised)}."""
+    seen_atoms = {atom name: set(switch blocks where it was recognised)}.
+    mark_edges / mark_blocks: {name: set(edges) / set(blocks)} — crossing one sets name=True in the assignment."""
     view = ThreadedView(body)
     origin = Origin(body)
     errs = err_blocks(body)
@@ -66,8 +67,14 @@ def explore(body, atoms, start=0, start_assign=None, max_states=200000):
             raise RuntimeError('path exploration exceeded %d states in %s' % (max_states, body.id))
         if bb in errs:
             via_err = True
+        if mark_blocks:
+            for mname, blks in mark_blocks.items():
+                if bb in blks and dict(assign).get(mname) is not True:
+                    d_ = dict(assign)
+                    d_[mname] = True
+                    assign = tuple(sorted(d_.items()))
         t = body.blocks[bb]['t']
-        if t['k'] == 'return':
+        if t['k'] == 'return' or (stop_blocks and bb in stop_blocks):
             terminals.append((bb, via_err, dict(assign), path))
             continue
         succs = view.succ(bb)
@@ -88,8 +95,16 @@ def explore(body, atoms, start=0, start_assign=None, max_states=200000):
                         break
                     new[a.name] = v
                 if ok:
-                    stack.append((tg, tuple(sorted(new.items())), via_err, path + (tg,)))
+                    stack.append((tg, _mark(new, mark_edges, bb, tg), via_err, path + (tg,)))
             continue
         for s in succs:
-            stack.append((s, assign, via_err, path + (s,)))
+            stack.append((s, _mark(dict(assign), mark_edges, bb, s), via_err, path + (s,)))
     return terminals, seen_atoms
+
+
+def _mark(assign, mark_edges, a, b):
+    if mark_edges:
+        for mname, edges in mark_edges.items():
+            if (a, b) in edges:
+                assign[mname] = True
+    return tuple(sorted(assign.items()))
